@@ -40,6 +40,7 @@ def run(ctx):
         ctx.guarded("R-C10-unsolicited", unsolicited, ctx, prog, ver)
         ctx.guarded("R-C10-readb", readb_no_frame_dropped, ctx, prog, ver)
         ctx.guarded("R-C10-announce", answered_means_flushed, ctx, prog, ver)
+        ctx.guarded("R-C10-incoming-first", connack_in_queue_order, ctx, prog, ver)
 
 
 def capacity(ctx, prog, ver):
@@ -437,3 +438,36 @@ def answered_means_flushed(ctx, prog, ver):
                       "the readb arm of select() returns readb's error (a later packet of the batch was unsolicited / malformed / the stream ended) before flushing: replies readb had already fed into the write buffer for earlier packets of the batch are dropped with the connection, "
                       "but their Outgoing::PubAck/PubRec/PubComp notifications stay queued and are handed to the user — and whether the broker gets those acks depends on how its packets were chunked",
                       site=body.loc(sp))
+
+
+def connack_in_queue_order(ctx, prog, ver):
+    """'in wire order': after a batch that ended in an error the notifications of the packets handled before it are still
+    queued in state.events. The CONNACK of the next connection was received after them, so poll() must hand it out
+    through that queue (push_back, then pop_front) — not return it directly, overtaking what is queued."""
+    rule = "R-C10-incoming-first"
+    pre = dict((v[0], v[2]) for v in VERSIONS)[ver]
+    body = prog.one("^" + re.escape(pre) + r"poll::\{closure#0\}$")
+    direct = []
+    for bi, b in enumerate(body.blocks):
+        if b.get("cleanup"):
+            continue
+        for st in b["s"]:
+            if "lhs" in st and st["lhs"]["l"] == 0 and not st["lhs"].get("p") and st["rv"]["k"] == "agg" and st["rv"].get("var") == "Ok":
+                def has_connack(op, d=0):
+                    for x in flatten_src(provenance(body, op)):
+                        if x.kind == "agg":
+                            if x.var == "ConnAck":
+                                return True
+                            if d < 4 and any(has_connack(o, d + 1) for o in x.rv.get("ops", [])):
+                                return True
+                    return False
+                if has_connack(st["rv"]["ops"][0]):
+                    direct.append((bi, st))
+    if direct:
+        for bi, st in direct:
+            ctx.violation(rule, body.id, "CONNACK returned ahead of queued notifications",
+                          "poll() returns Event::Incoming(ConnAck) of the new connection directly, while notifications of packets received on the previous connection can still be queued in state.events (a batch that ended in an error): "
+                          "the user learns of the new connection before the packets that were received earlier — the %s sibling routes the CONNACK through the queue" % ("v5" if ver == "v4" else "v4"),
+                          site=body.loc(st.get("sp")))
+    else:
+        ctx.ok(rule, body.id, "poll() never returns a CONNACK event built on the spot: it goes through the event queue, behind what is already queued", site=body.fn_loc())
